@@ -30,7 +30,8 @@ func init() {
 				"table and the lock/wake-up discipline by an invariant argument that the checker does not mechanise.",
 			Rules: map[string]string{"C18-R1": "counter transition tables", "C18-R2": "counter state only under counterCond.L",
 				"C18-R3": "Broadcast after every state change that can release waiters; no Signal",
-				"C18-R4": "slot taken/released exactly once on every accept/close path", "C18-R5": "pipeline semaphore acquire-before-submit, release once, sized from config"},
+				"C18-R4": "slot taken/released exactly once on every accept/close path", "C18-R7": "limiter wiring: New builds one shared counter with the configured thresholds; Limit hands every listener that shared counter and condition variable; the limiting ListenConfig wraps every stream listener; dnssvc wraps the listen config whenever a limiter is configured; the YAML thresholds reach New unchanged",
+				"C18-R5": "pipeline semaphore acquire-before-submit, release once, sized from config"},
 		}})
 }
 
@@ -42,6 +43,7 @@ func runC18(c *an.Ctx) {
 	c.Floor("C18-R5", 5)
 	c.Floor("C18-R6", 4)
 	c18Config(c)
+	c18Wiring(c)
 
 	// ---- R1
 	num := func(a an.AV) int64 { return an.Env{"x": a}.I("x") }
@@ -460,4 +462,124 @@ func c18Config(c *an.Ctx) {
 	// the listener constructors hand the TCP limits to both stream transports
 	checkFieldMap(c, "C18-R6", "dnssvc.NewListener", "dnsserver.ConfigDNS", map[string]string{
 		"MaxPipelineCount": ".MaxPipelineCount", "MaxPipelineEnabled": ".MaxPipelineEnabled"})
+}
+
+// c18Wiring holds the tables showing that the configured limiter is the one
+// every stream listener of every server uses.
+func c18Wiring(c *an.Ctx) {
+	c.Floor("C18-R7", 5)
+	decide(c, "C18-R7", "connlimiter.New", an.DecideCfg{
+		Dom: an.Domain{"p0": {an.Nil(), an.NonNil("cfg")}, "(cfg.Stop == 0)": an.Bools, "(cfg.Stop < cfg.Resume)": an.Bools},
+		OnCall: func(it *an.Interp, name string, args []an.AV) (an.AV, bool) {
+			switch {
+			case name == "sync.NewCond":
+				return an.NonNil("cond"), true
+			case name == "fmt.Errorf":
+				return an.NonNil("cfgErr"), true
+			}
+			return an.AV{}, false
+		},
+		Expect: func(f an.Features, o an.AOutcome) string {
+			if len(o.Ret) != 2 {
+				return "a (limiter, err) result"
+			}
+			bad := f.IsNil("p0") || f.B("(cfg.Stop == 0)") || f.B("(cfg.Stop < cfg.Resume)")
+			if bad {
+				if o.Ret[0].Kind == an.KNil && o.Ret[1].Kind != an.KNil {
+					return ""
+				}
+				return "an error for a missing configuration, a zero stop threshold or resume above stop; got " + o.RetString()
+			}
+			k := strings.TrimPrefix(o.Ret[0].String(), "&")
+			ck := strings.TrimPrefix(o.Mem[k+".counter"].String(), "&")
+			for fld, want := range map[string]string{"stop": "cfg.Stop", "resume": "cfg.Resume", "isAccepting": "true", "current": "0"} {
+				if got := o.Mem[ck+"."+fld].String(); got != want {
+					return fmt.Sprintf("counter.%s = %s; got %s", fld, want, got)
+				}
+			}
+			if o.Mem[k+".counterCond"].String() != "nonnil:cond" {
+				return "one condition variable for the limiter"
+			}
+			return ""
+		},
+	})
+	decide(c, "C18-R7", "connlimiter.(*Limiter).Limit", an.DecideCfg{
+		Dom: an.Domain{},
+		OnCall: func(it *an.Interp, name string, args []an.AV) (an.AV, bool) {
+			switch {
+			case strings.Contains(name, "prometheus.") || strings.Contains(name, "slog.Logger).With"), strings.HasSuffix(name, ".String"):
+				return an.NonNil("x"), true
+			case name == "sync.NewCond":
+				return an.NonNil("another condition variable"), true
+			}
+			return an.AV{}, false
+		},
+		Expect: func(f an.Features, o an.AOutcome) string {
+			if len(o.Ret) != 1 {
+				return "a listener"
+			}
+			k := strings.TrimPrefix(o.Ret[0].String(), "&")
+			for fld, want := range map[string]string{"counter": "p0.counter", "counterCond": "p0.counterCond", "Listener": "p1", "isClosed": "false"} {
+				if got := o.Mem[k+"."+fld].String(); got != want {
+					return fmt.Sprintf("the wrapped listener's %s = %s (all listeners of one limiter share its counter and its condition variable, so that a slot freed anywhere wakes every waiting accept); got %s", fld, want, got)
+				}
+			}
+			return ""
+		},
+	})
+	decide(c, "C18-R7", "connlimiter.(*ListenConfig).Listen", an.DecideCfg{
+		Dom: an.Domain{"err": an.Bools},
+		OnCall: func(it *an.Interp, name string, args []an.AV) (an.AV, bool) {
+			switch {
+			case name == "p0.listenConfig.Listen":
+				if it.Feature("err").IsTrue() {
+					return an.AV{Kind: an.KTuple, Tup: []an.AV{an.Nil(), an.NonNil("listenErr")}}, true
+				}
+				return an.AV{Kind: an.KTuple, Tup: []an.AV{an.NonNil("lsnr"), an.Nil()}}, true
+			case strings.HasSuffix(name, "dnsserver.MustServerInfoFromContext"):
+				return an.NonNil("info"), true
+			case strings.HasSuffix(name, "connlimiter.Limiter).Limit"):
+				return an.NonNil("limited(" + args[0].String() + "," + args[1].String() + ")"), true
+			}
+			return an.AV{}, false
+		},
+		Expect: func(f an.Features, o an.AOutcome) string {
+			want := "nonnil:limited(p0.limiter,nonnil:lsnr), nil"
+			if f.B("err") {
+				want = "nil, nonnil:listenErr"
+			}
+			if o.RetString() != want {
+				return want + " (every stream listener is wrapped by the limiter); got " + o.RetString()
+			}
+			return ""
+		},
+	})
+	proto := func(n string) int64 { v, _ := c.ConstInt("agd", n); return v }
+	decide(c, "C18-R7", "dnssvc.newListenConfig", an.DecideCfg{
+		Dom: an.Domain{"p0": {an.Nil(), an.NonNil("orig")}, "p2": {an.Nil(), an.NonNil("lim")}, "p3": an.Ints(proto("ProtoDNS"), proto("ProtoDoT"))},
+		OnCall: func(it *an.Interp, name string, args []an.AV) (an.AV, bool) {
+			switch {
+			case strings.HasSuffix(name, "connlimiter.NewListenConfig"):
+				return an.NonNil("limitedlc(" + args[0].String() + "," + args[1].String() + ")"), true
+			case strings.HasSuffix(name, "netext.DefaultListenConfigWithOOB"), strings.HasSuffix(name, "netext.DefaultListenConfig"):
+				return an.NonNil("default"), true
+			}
+			return an.AV{}, false
+		},
+		Expect: func(f an.Features, o an.AOutcome) string {
+			base := "nonnil:default"
+			if !f.IsNil("p0") {
+				base = "nonnil:orig"
+			}
+			want := base
+			if !f.IsNil("p2") {
+				want = "nonnil:limitedlc(" + base + ",nonnil:lim)"
+			}
+			if o.RetString() != want {
+				return want + " (the listen configuration is wrapped by the limiter whenever one is configured, for every protocol); got " + o.RetString()
+			}
+			return ""
+		},
+	})
+	checkFieldMap(c, "C18-R7", "cmd.(*connLimitConfig).toInternal", "connlimiter.Config", map[string]string{"Stop": ".Stop", "Resume": ".Resume"})
 }
